@@ -41,6 +41,7 @@ static size_t g_rootlen = 0;
 static char g_root2[4096];      /* optional second monitored tree ($VF_SHIM_ROOT2), e.g. a TMPDIR on another filesystem */
 static size_t g_root2len = 0;
 static int g_init = 0;
+static int g_reads = 0;         /* $VF_SHIM_READS: read(2)/pread(2) on files below the root are operations too (kind "read") */
 static int g_stdio = 0;         /* $VF_SHIM_STDIO: writes to fd 1/2 are operation boundaries too (kind "stdio") */
 
 #define MAXRULES 32
@@ -97,6 +98,7 @@ static void init(void)
     if (log) g_log = syscall(SYS_open, log, O_WRONLY | O_CREAT | O_APPEND | O_CLOEXEC, 0644);
     if (rules) parse_rules(rules);
     if (getenv("VF_SHIM_STDIO")) g_stdio = 1;
+    if (getenv("VF_SHIM_READS")) g_reads = 1;
 }
 __attribute__((constructor)) static void ctor(void) { init(); }
 
@@ -328,6 +330,43 @@ ssize_t writev(int fd, const struct iovec *iov, int cnt)
     errno = err;
     return ret;
 }
+
+/* ---------- fd-level reads (opt-in): errno injection = the read fails, "short" = it returns at most half of what was asked
+ * (legal kernel behaviour: FUSE / NFS transfer sizes, signals) ---------- */
+ssize_t read(int fd, void *b, size_t n)
+{
+    init();
+    if (!g_reads || !g_rootlen) return syscall(SYS_read, fd, b, n);
+    char pb[4096];
+    const char *p = fd_path(fd, pb, sizeof pb);
+    if (!in_root(p)) return syscall(SYS_read, fd, b, n);
+    int ie, sw;
+    struct op o = begin("read", p, NULL, fd, (long)n, 0, &ie, &sw);
+    long ret; int err = 0;
+    if (ie) { ret = -1; err = ie; }
+    else { ret = syscall(SYS_read, fd, b, (sw && n > 1) ? n / 2 : n); err = errno; }
+    end(o, ret, err);
+    errno = err;
+    return ret;
+}
+
+ssize_t pread64(int fd, void *b, size_t n, off64_t off)
+{
+    init();
+    if (!g_reads || !g_rootlen) return syscall(SYS_pread64, fd, b, n, off);
+    char pb[4096];
+    const char *p = fd_path(fd, pb, sizeof pb);
+    if (!in_root(p)) return syscall(SYS_pread64, fd, b, n, off);
+    int ie, sw;
+    struct op o = begin("read", p, NULL, fd, (long)n, 0, &ie, &sw);
+    long ret; int err = 0;
+    if (ie) { ret = -1; err = ie; }
+    else { ret = syscall(SYS_pread64, fd, b, (sw && n > 1) ? n / 2 : n, off); err = errno; }
+    end(o, ret, err);
+    errno = err;
+    return ret;
+}
+ssize_t pread(int fd, void *b, size_t n, off_t off) { return pread64(fd, b, n, off); }
 
 ssize_t pwrite64(int fd, const void *b, size_t n, off64_t off)
 {
